@@ -36,6 +36,13 @@ def dispatch (line : String) : String :=
   | "s0" :: args => Driver.FileIO.handleS0 args
   | "rd" :: args => Driver.FileIO.handleRd args
   | "srd" :: args => Driver.Safe.handleSrd args
+  | "snum" :: args => Driver.Safe.handleSnum args
+  | "saddr" :: args => Driver.Safe.handleSaddr args
+  | "srange" :: args => Driver.Safe.handleSrange args
+  | "swrite" :: args => Driver.Safe.handleSwrite args
+  | "sprint" :: args => Driver.Safe.handleSprint args
+  | "swalk" :: args => Driver.Safe.handleSwalk args
+  | "svalid" :: args => Driver.Safe.handleSvalid args
   | _ => "bad-op"
 
 partial def loop (h : IO.FS.Stream) (out : IO.FS.Stream) : IO Unit := do
